@@ -75,6 +75,41 @@ CHECKS = {
             "Held on 5k generated histories of 0-12 lines per quick run with the id lists verified after every prefix (35k verifications), incl. empty first/inner lines, repeated lines, no lines; the final lists were always accepted by map and preserved tokenization.",
             "Default tokenizer options as in the tool. Probabilities to 1e-12 relative.",
             "5/C13"),
+    "C14": ("exploration",
+            "property-based testing (proptest) with a reference-model oracle: generated training configurations are trained, and the emitted files are compared field by field with an independent merge of the raw model read through a hook",
+            "Held on 1.5k generated training configurations per quick run (each incl. a CRF training run): row order, surfaces (incl. commas/quotes), verbatim features, class ids, every cost == trunc(-w*32767/max|w|), every matrix cell and the header, user rows (0,0,0 vs explicit), compilation of the emitted files; 78% of cases have virtual edges, 48% user rows given as 0,0,0.",
+            "Small models only. Trusts the hook's plain-data view of the raw model (weights, index tables, feature-id lists). Open known finding excluded by construction and counted: empty bigram weight table + user lexicon (panic inside rucrf).",
+            "5/C14"),
+    "C15": ("exploration",
+            "stateful property-based testing (proptest): differential testing of the in-memory model against read_model(write_model(M)) under generated operation histories",
+            "Held on 1.2k generated (model, history) cases per quick run: after every generation all seven output files agree (bigram.cost as a multiset), generating twice agrees, write_model reports its length; 36% add a user lexicon after the round trip.",
+            "User entries are not part of the model file, so they are added after the round trip on both sides (as dictgen does).",
+            "5/C15"),
+    "C16": ("exploration",
+            "differential property-based testing (proptest) with a derived tolerance: dictionaries compiled from matrix.def and from bigram.left/right/cost (raw and dual) compared on every id pair",
+            "Held on 1.2k trained models per quick run (K = 1-10 templates: <8, 8, >8), ~158k id pairs incl. BOS/EOS rows and columns: |bigram - matrix| <= K+1 and identical id counts for raw and dual connectors.",
+            "Tolerance derived (one truncation per template plus one for the matrix cell). Small models only.",
+            "5/C16"),
+    "C17": ("exploration",
+            "property-based testing (proptest) with a reference-model oracle (first matching rule in file order) plus bounded-exhaustive enumeration of a small rule/feature space",
+            "Held on 20k generated rule lists x 4 feature lists per quick run (prefix sharing forced, wildcard/literal/alternative interleaving, absent $n) and on ALL 8,420 rule lists of <=3 rules x <=2 positions over {*,a,b,(a|b)} against ALL 13 feature lists over {a,b,c} (exhaustive for that sub-space).",
+            "Goes through the rewrite.def parser (section headers, decoy rules in the other sections) via a hook. '$0' and non-numeric references are outside the documented grammar.",
+            "5/C17"),
+    "C18": ("exploration",
+            "property-based testing (proptest) with a reference-model oracle: MeCab template expansion at function level (id bijection over call histories) and at dictionary level (context tuples vs connection ids and bigram.left/right lines after training)",
+            "Held on 8k generated template sets x histories of 1-40 extraction calls and 1.2k trained models per quick run: ids None exactly where the reference yields no feature, equal strings <=> equal ids, listed tuples equal expansions except '*' for dropped features, equal tuples share ids.",
+            "Sharing is checked among training-time rows and among user rows separately (zero-weight features are dropped from training-time rows only).",
+            "5/C18"),
+    "C19": ("exploration",
+            "property-based testing (proptest): round trip render -> parse -> write -> parse over generated corpora with negative cases, and closure of the parser under the tokenizer's MeCab-style output",
+            "Held on 20k generated corpora (incl. surface 'EOS', empty features, dropped empty sentences, missing final newline, 5k malformed variants rejected) and 4k dictionaries x options whose tokenizer output (incl. tokens with surface 'EOS') parsed back to exactly the tokens, per quick run.",
+            "Inputs exclude tab and every Unicode line-break character (conservative reading). The CLI binaries themselves are exercised only in the thorough tier.",
+            "5/C19"),
+    "C20": ("exploration",
+            "property-based testing (proptest) with a reference-model oracle: generated MeCab model descriptions converted, compiled with the raw connector and compared on every pair of non-zero ids (accessor and two-token probe sentences)",
+            "Held on 6k generated model descriptions per quick run (1-8 templates with optional references, 1-8 ids per side, 4 cost factors, unrealisable/zero/truncating weights, BOS/EOS lines), ~110k id pairs, 25k black-box probes; 580 error variants rejected.",
+            "Reference expansion written from the property statement (not from the code's crossed file naming), so a single left/right swap changes costs and is detected.",
+            "5/C20"),
 }
 
 NOT_YET = "check not built yet in this session (work in progress; see DESIGN.md section 5)"
